@@ -289,6 +289,18 @@ def fmt(ctx: Any) -> List[Ob]:
     obs.append(ob(R, ('src/zeroconf', '<package>'), f'{len(sites)} DNSOutgoing(...) sites', 'all known construction sites are still present', not missing, f'missing {sorted(missing)}'))
     dflt = prog.cls('zeroconf._protocol.outgoing.DNSOutgoing').methods['__init__'].node.args.defaults
     obs.append(ob(R, prog.cls('zeroconf._protocol.outgoing.DNSOutgoing').methods['__init__'], 'multicast: bool = True, id_: int = 0', 'a message is multicast with id 0 unless stated otherwise', [norm(d) for d in dflt] == ['True', '0']))
+    # every multicast reply has id 0: no multicast construction hands an id on, and the header writer puts 0 for a multicast message
+    for f_, c_ in sites:
+        wmc_ = table.get(f_.qual, (None, None))[1]
+        if wmc_ in ('True', 'default'):
+            id_args = list(c_.args[2:3]) + [k.value for k in c_.keywords if k.arg in ('id_', 'id')]
+            obs.append(ob(R, f_, c_, 'a multicast message is built without an id of its own (id 0)', not id_args or all(prog.try_fold(f_.module, a) == (True, 0) for a in id_args), f'id argument `{norm(id_args[0])}`' if id_args else ''))
+    from .c14 import tc as _tc
+
+    for o in _tc.fn(ctx):
+        if o.construct.startswith('remaining=None'):
+            o.rule = R
+            obs.append(o)
     uni = prog.func('zeroconf._handlers.answers.construct_outgoing_unicast_answers')
     c = next(c for f, c in sites if f is uni)
     obs.append(ob(R, uni, c, 'the unicast reply carries the id of the query', len(c.args) == 3 and norm(c.args[2]) == uni.params[3]))
